@@ -171,3 +171,19 @@ impl Default for TlsClientHelloReader {
         Self::new()
     }
 }
+
+/// Verification hooks (feature `verif-hooks`, default off): build a reader that already holds
+/// `bytes` (as after earlier `add_bytes` calls that could not complete a record) and look at
+/// the retained bytes.
+#[cfg(feature = "verif-hooks")]
+impl TlsClientHelloReader {
+    pub fn verif_with_buffer(bytes: &[u8]) -> Self {
+        let mut reader = Self::new();
+        reader.buffer.extend_from_slice(bytes);
+        reader
+    }
+
+    pub fn verif_buffer(&self) -> &[u8] {
+        &self.buffer
+    }
+}
